@@ -112,8 +112,9 @@ func pkgPathOf(fn *ssa.Function) string {
 	return ""
 }
 
-func isZeroPkg(fn *ssa.Function) bool {
-	p := pkgPathOf(fn)
+func isZeroPkg(fn *ssa.Function) bool { return isZeroPkgPath(pkgPathOf(fn)) }
+
+func isZeroPkgPath(p string) bool {
 	for _, z := range zeroPkgs {
 		if p == z || strings.HasPrefix(p, z+"/") || (strings.HasSuffix(z, "/") && strings.HasPrefix(p, z)) {
 			return true
